@@ -475,6 +475,117 @@ Proof.
   eapply is_link_restrict; eauto.
 Qed.
 
+(* ---- shrinking: a later state is the earlier one minus an extension-closed set ---- *)
+Definition Shrinks (s s' : fs) : Prop :=
+  exists D, s' = restrict s D /\ ext_closed D /\ D [] = false.
+
+Lemma Shrinks_refl : forall s, Shrinks s s.
+Proof.
+  intros s. exists (fun _ => false). repeat split; try (intros p q H; discriminate).
+  unfold restrict. induction s as [|e l IH]; cbn; [reflexivity|]. f_equal. exact IH.
+Qed.
+
+Lemma Shrinks_trans : forall a b c, Shrinks a b -> Shrinks b c -> Shrinks a c.
+Proof.
+  intros a b c (D1 & -> & E1 & Z1) (D2 & -> & E2 & Z2).
+  exists (fun k => D1 k || D2 k). repeat split.
+  - apply restrict_restrict.
+  - apply ext_closed_or; assumption.
+  - rewrite Z1, Z2. reflexivity.
+Qed.
+
+Definition Dof (del : list path) : path -> bool := fun k => existsb (fun P => is_prefix P k) del.
+
+Lemma rm_trees_restrict : forall del s, rm_trees s del = restrict s (Dof del).
+Proof.
+  induction del as [|P del IH]; intros s.
+  - cbn. unfold restrict, Dof. cbn. induction s as [|e l IHl]; cbn; [reflexivity|]. f_equal. exact IHl.
+  - cbn [rm_trees fold_left]. change (fold_left rm_tree del (rm_tree s P)) with (rm_trees (rm_tree s P) del).
+    rewrite IH, rm_tree_restrict, restrict_restrict. reflexivity.
+Qed.
+
+Lemma Dof_ext : forall del, ext_closed (Dof del).
+Proof.
+  intros del p q H Hp. unfold Dof in *. apply existsb_exists in H. destruct H as (P & HP & H).
+  apply existsb_exists. exists P. split; [exact HP|]. eapply is_prefix_trans; eauto.
+Qed.
+
+Lemma Dof_nil : forall del, (forall P, In P del -> P <> []) -> Dof del [] = false.
+Proof.
+  intros del H. unfold Dof. destruct (existsb (fun P => is_prefix P []) del) eqn:E; [|reflexivity].
+  apply existsb_exists in E. destruct E as (P & HP & Hp). apply is_prefix_nil_r in Hp. exfalso. eapply H; eauto.
+Qed.
+
+Lemma Dof_in : forall del P, In P del -> Dof del P = true.
+Proof. intros del P H. apply existsb_exists. exists P. split; [exact H|apply is_prefix_refl]. Qed.
+
+Lemma Shrinks_rm_trees : forall s del, (forall P, In P del -> P <> []) -> Shrinks s (rm_trees s del).
+Proof.
+  intros s del H. exists (Dof del). split; [apply rm_trees_restrict|]. split; [apply Dof_ext|apply Dof_nil; exact H].
+Qed.
+
+(* p is gone for good: it does not exist in any later state *)
+Definition gone (s : fs) (p : path) : Prop := forall s', Shrinks s s' -> lexists s' p = false.
+
+Lemma gone_mono : forall s s' p, gone s p -> Shrinks s s' -> gone s' p.
+Proof. intros s s' p G Sh s'' Sh'. apply G. eapply Shrinks_trans; eauto. Qed.
+
+Lemma gone_now : forall s p, gone s p -> lexists s p = false.
+Proof. intros s p G. apply G. apply Shrinks_refl. Qed.
+
+(* once the directory entry of p has been removed, p never exists again *)
+Lemma lexists_gone : forall s D p P, ext_closed D -> D [] = false ->
+  phys s p = Some P -> D P = true -> lexists (restrict s D) p = false.
+Proof.
+  intros s D p P He H0 HP HD. unfold lexists.
+  destruct (lstat (restrict s D) p) as [k|] eqn:E; [|reflexivity].
+  destruct (lstat_restrict s D He H0 _ _ E) as (_ & P' & _ & HP' & HD'). congruence.
+Qed.
+
+(* ... nor anything addressed through it *)
+Lemma below_gone : forall s D a P rest, ext_closed D -> D [] = false -> a <> [] ->
+  phys s a = Some P -> D P = true -> lexists (restrict s D) (a ++ rest) = false.
+Proof.
+  intros s D a P rest He H0 Ha HP HD. destruct rest as [|c r] using rev_ind.
+  - rewrite app_nil_r. eapply lexists_gone; eauto.
+  - clear IHr. unfold lexists. rewrite app_assoc.
+    destruct (realpath (restrict s D) (a ++ r)) as [m'|] eqn:R.
+    2:{ unfold lstat. rewrite phys_snoc, R. reflexivity. }
+    rewrite (lstat_snoc _ _ _ _ R).
+    assert (Dm : D m' = true).
+    { destruct (split_last_some a Ha) as (par & c0 & Ea). rewrite Ea in R.
+      destruct (realpath_app_inv _ _ _ _ R) as (m1 & f1 & R1 & W1).
+      destruct (realpath_app_inv _ _ _ _ R1) as (m0 & f0 & R0 & W0).
+      assert (D1 : D (m0 ++ [c0]) = true).
+      { assert (HP' : phys (restrict s D) a = Some (m0 ++ [c0])) by (rewrite Ea, phys_snoc, R0; reflexivity).
+        destruct (phys_restrict s D He H0 _ _ HP') as [E|E]; [congruence|exact E]. }
+      destruct (walk_single _ _ _ _ _ W0) as [[t L]|[_ ->]].
+      - rewrite lookup_restrict, D1 in L by exact H0. discriminate.
+      - eapply walk_in_D; eauto. }
+    rewrite lookup_restrict by exact H0.
+    rewrite (He _ _ Dm (is_prefix_app m' [c])). reflexivity.
+Qed.
+
+Lemma gone_of_root : forall s del p P, (forall Q, In Q del -> Q <> []) -> In P del ->
+  phys s p = Some P -> gone (rm_trees s del) p.
+Proof.
+  intros s del p P Hne Hin HP s' (D2 & -> & E2 & Z2).
+  rewrite rm_trees_restrict, restrict_restrict.
+  eapply lexists_gone; [apply ext_closed_or; [apply Dof_ext|exact E2]| |exact HP|].
+  - rewrite (Dof_nil _ Hne), Z2. reflexivity.
+  - rewrite (Dof_in _ _ Hin). reflexivity.
+Qed.
+
+Lemma gone_below_root : forall s del a P rest, (forall Q, In Q del -> Q <> []) -> In P del -> a <> [] ->
+  phys s a = Some P -> gone (rm_trees s del) (a ++ rest).
+Proof.
+  intros s del a P rest Hne Hin Ha HP s' (D2 & -> & E2 & Z2).
+  rewrite rm_trees_restrict, restrict_restrict.
+  eapply below_gone; [apply ext_closed_or; [apply Dof_ext|exact E2]| |exact Ha|exact HP|].
+  - rewrite (Dof_nil _ Hne), Z2. reflexivity.
+  - rewrite (Dof_in _ _ Hin). reflexivity.
+Qed.
+
 Arguments realpath : simpl never.
 Arguments phys : simpl never.
 Arguments lstat : simpl never.
@@ -688,27 +799,38 @@ Section Contain.
 
   (* what a loop preserves: the invariant, and the ancestor condition of any path *)
   Definition Post (s s' : fs) : Prop :=
-    Inv s' /\ forall rel, anc_ok s run stds rel -> anc_ok s' run stds rel.
+    Inv s' /\ (forall rel, anc_ok s run stds rel -> anc_ok s' run stds rel) /\ Shrinks s s'.
 
   Lemma Post_refl : forall s, Inv s -> Post s s.
-  Proof. intros s H. split; auto. Qed.
+  Proof. intros s H. split; [exact H|]. split; [auto|apply Shrinks_refl]. Qed.
 
   Lemma Post_trans : forall a b c, Post a b -> Post b c -> Post a c.
-  Proof. intros a b c [_ H1] [H2 H3]. split; auto. Qed.
+  Proof.
+    intros a b c (_ & H1 & S1) (H2 & H3 & S2). split; [exact H2|]. split; [auto|eapply Shrinks_trans; eauto].
+  Qed.
+
+  Lemma roots_ok_nonroot : forall s del, roots_ok s del -> forall P, In P del -> P <> [].
+  Proof. intros s del H P HP. destruct (H P HP). assumption. Qed.
 
   Lemma Post_roots : forall s del, Inv s -> roots_ok s del -> Post s (rm_trees s del).
-  Proof. intros s del HI Hr. split; [apply roots_ok_Inv; assumption|]. intros rel. apply roots_ok_anc. exact Hr. Qed.
+  Proof.
+    intros s del HI Hr. split; [apply roots_ok_Inv; assumption|]. split.
+    - intros rel. apply roots_ok_anc. exact Hr.
+    - apply Shrinks_rm_trees. eapply roots_ok_nonroot; eauto.
+  Qed.
 
   Lemma paths_ok_Post : forall s s' ps, Post s s' -> paths_ok s ps -> paths_ok s' ps.
   Proof.
-    intros s s' ps [_ H] Hp p Hin. destruct (Hp p Hin) as (rel & -> & Hok). eauto.
+    intros s s' ps (_ & H & _) Hp p Hin. destruct (Hp p Hin) as (rel & -> & Hok). eauto.
   Qed.
 
   Lemma rm_each_cons : forall s p ps, rm_each s (p :: ps) =
-    match rm_dir_or_file s p with
-    | ROk del => rm_each (rm_trees s del) ps
-    | RErr e => (s, Some e)
-    end.
+    if lexists s p then
+      match rm_dir_or_file s p with
+      | ROk del => rm_each (rm_trees s del) ps
+      | RErr e => (s, Some e)
+      end
+    else rm_each s ps.
   Proof. reflexivity. Qed.
 
   Lemma rm_targets_cons : forall s p ps, rm_targets s (p :: ps) =
@@ -723,6 +845,8 @@ Section Contain.
     induction ps as [|p ps IH]; intros s s' e HI Hp.
     - intros H. inversion H; subst. apply Post_refl. exact HI.
     - destruct (Hp p (or_introl eq_refl)) as (rel & Ep & Hok). rewrite rm_each_cons.
+      destruct (lexists s p).
+      2:{ intros H. eapply IH; [exact HI| |exact H]. intros q Hq. apply Hp. right. exact Hq. }
       destruct (rm_dir_or_file s p) as [del|er] eqn:E; intros H.
       + rewrite Ep in E. pose proof (rm_dir_or_file_roots _ _ _ HI Hok E) as Hr.
         pose proof (Post_roots _ _ HI Hr) as P1.
@@ -861,6 +985,129 @@ Section Contain.
     - intros d [<-|[]]. split; [apply anc_ok_nil|left; reflexivity].
     - cbn [map]. rewrite app_nil_r. exact H.
   Qed.
+
+  (* ---- completeness of the removal loops ---- *)
+  Lemma lexists_phys : forall s p, lexists s p = true -> exists P k, phys s p = Some P /\ lstat s p = Some k.
+  Proof.
+    intros s p. unfold lexists. destruct (lstat s p) as [k|] eqn:L; [|discriminate]. intros _.
+    unfold lstat in L. destruct (phys s p) as [P|] eqn:HP; [|discriminate]. exists P, k. auto.
+  Qed.
+
+  (* an existing path is always removable: remove_dir_or_file cannot fail on it *)
+  Lemma rm_dir_or_file_total : forall s p, lexists s p = true ->
+    exists P, phys s p = Some P /\ rm_dir_or_file s p = ROk [P].
+  Proof.
+    intros s p H. destruct (lexists_phys s p H) as (P & k & HP & L). exists P. split; [exact HP|].
+    unfold rm_dir_or_file, is_link, is_file, is_dir, stat. rewrite L, HP.
+    destruct k; reflexivity.
+  Qed.
+
+  Lemma rm_each_complete : forall ps s, (forall p, In p ps -> p <> []) ->
+    exists s', rm_each s ps = (s', None) /\ Shrinks s s' /\ forall p, In p ps -> gone s' p.
+  Proof.
+    induction ps as [|p ps IH]; intros s Hne.
+    - exists s. split; [reflexivity|]. split; [apply Shrinks_refl|intros p []].
+    - rewrite rm_each_cons. destruct (lexists s p) eqn:Lx.
+      + destruct (rm_dir_or_file_total s p Lx) as (P & HP & ->).
+        assert (HPne : forall Q, In Q [P] -> Q <> []).
+        { intros Q [<-|[]]. eapply phys_nonroot; [apply Hne; left; reflexivity|exact HP]. }
+        destruct (IH (rm_trees s [P]) (fun q Hq => Hne q (or_intror Hq))) as (s' & E & Sh & Hall).
+        exists s'. split; [exact E|]. split.
+        * eapply Shrinks_trans; [apply Shrinks_rm_trees; exact HPne|exact Sh].
+        * intros q [<-|Hq]; [|apply Hall; exact Hq].
+          eapply gone_mono; [|exact Sh]. eapply gone_of_root; [exact HPne|left; reflexivity|exact HP].
+      + destruct (IH s (fun q Hq => Hne q (or_intror Hq))) as (s' & E & Sh & Hall).
+        exists s'. split; [exact E|]. split; [exact Sh|].
+        intros q [Eq|Hq]; [subst q|apply Hall; exact Hq].
+        intros s'' Sh'. destruct (Shrinks_trans _ _ _ Sh Sh') as (D & -> & He & H0).
+        unfold lexists in *. destruct (lstat (restrict s D) p) as [k|] eqn:E'; [|reflexivity].
+        destruct (lstat_restrict s D He H0 _ _ E') as (E'' & _). rewrite E'' in Lx. discriminate.
+  Qed.
+
+  Lemma remove_path_other : forall x l p, In p l -> p <> x -> In p (remove_path x l).
+  Proof.
+    intros x l p. unfold remove_path. induction l as [|y l IH]; cbn; [auto|].
+    intros [->|H] Hne.
+    - destruct (path_eqb p x) eqn:E; [apply path_eqb_eq in E; congruence|left; reflexivity].
+    - destruct (path_eqb y x); [exact H|right; apply IH; assumption].
+  Qed.
+
+  Lemma link_root : forall s p del, is_link s p = true -> rm_dir_and_target s p = ROk del ->
+    exists P, phys s p = Some P /\ In P del.
+  Proof.
+    intros s p del L H. assert (Lx : lexists s p = true).
+    { unfold is_link in L. unfold lexists. destruct (lstat s p); [reflexivity|discriminate]. }
+    destruct (lexists_phys s p Lx) as (P & k & HP & _). exists P. split; [exact HP|].
+    destruct (rm_dir_and_target_cases _ _ _ H) as [[_ [->| ->]]|[_ ->]]; rewrite HP; cbn;
+      [apply in_or_app; right; left; reflexivity|left; reflexivity|left; reflexivity].
+  Qed.
+
+  (* first loop of _clean_using_glob: a standard symlink dir taken out of the match list has
+     been removed; if the run dir itself went, every path below it is gone *)
+  Lemma rm_std_dirs_complete : forall ds s ms s' ms' stop, Inv s ->
+    (forall d, In d ds -> In d keys) ->
+    rm_std_dirs s run (map (fun d => run ++ d) ds) ms = (s', ms', stop) ->
+    (forall e, stop <> Some (Some e)) ->
+    (forall p, In p ms -> In p ms' \/ gone s' p) /\
+    (stop = Some None -> forall rel, gone s' (run ++ rel)).
+  Proof.
+    induction ds as [|d ds IH]; intros s ms s' ms' stop HI Hk.
+    - cbn. intros H. inversion H; subst. intros _. split; [auto|discriminate].
+    - cbn [map]. rewrite rm_std_dirs_cons.
+      destruct (existsb (fun p => is_prefix p (run ++ d)) ms && is_link s (run ++ d)) eqn:C.
+      2:{ intros H. eapply IH; eauto. intros d' Hd'. apply Hk. right. exact Hd'. }
+      apply andb_prop in C. destruct C as [_ L].
+      destruct (rm_dir_and_target s (run ++ d)) as [del|er] eqn:E.
+      2:{ intros H. inversion H; subst. intros Hs. exfalso. eapply Hs. reflexivity. }
+      assert (Hd : In d keys) by (apply Hk; left; reflexivity).
+      assert (Hr : roots_ok s del).
+      { apply (rm_dir_and_target_roots s d del HI (keys_anc_Inv s d HI Hd)); [|exact E].
+        right. apply mem_path_In. rewrite stds_def. apply in_map. exact Hd. }
+      pose proof (Post_roots _ _ HI Hr) as P1. pose proof (roots_ok_nonroot _ _ Hr) as Hne.
+      destruct (link_root _ _ _ L E) as (P & HP & HinP).
+      assert (Hsdne : run ++ d <> []) by (destruct run; [congruence|discriminate]).
+      cbv zeta. destruct (path_eqb (run ++ d) run) eqn:Eq.
+      + intros H. inversion H; subst. intros _. split; [auto|]. intros _ rel.
+        apply path_eqb_eq in Eq. rewrite Eq in HP.
+        eapply gone_below_root; eauto.
+      + intros H Hs.
+        destruct (rm_std_dirs_Post _ _ _ _ _ _ (proj1 P1) (fun d' Hd' => Hk d' (or_intror Hd')) H) as [P2 _].
+        destruct (IH _ _ _ _ _ (proj1 P1) (fun d' Hd' => Hk d' (or_intror Hd')) H Hs) as [A B].
+        split; [|exact B]. intros p Hp.
+        destruct (path_eqb p (run ++ d)) eqn:Ep.
+        * apply path_eqb_eq in Ep. subst p. right.
+          eapply gone_mono; [|apply P2]. eapply gone_of_root; eauto.
+        * apply A. destruct (mem_path (run ++ d) ms); [|exact Hp].
+          apply remove_path_other; [exact Hp|]. intros ->. rewrite path_eqb_refl in Ep. discriminate.
+  Qed.
+
+  (* every path glob_in_run_dir hands to the removal loops is gone afterwards, unless
+     remove_dir_and_target itself raised on a standard symlink dir *)
+  Lemma clean_using_glob_complete : forall s raw s', Inv s ->
+    (forall x, In x raw -> lexical run x) ->
+    clean_using_glob s run keys raw = (s', None) ->
+    forall p, In p (glob_in_run_dir s run stds raw) -> gone s' p.
+  Proof.
+    intros s raw s' HI Hlex. unfold clean_using_glob. rewrite <- stds_def.
+    pose proof (glob_in_run_dir_ok s run stds raw) as G.
+    destruct (glob_in_run_dir s run stds raw) as [|m ms] eqn:Em; [intros _ p []|].
+    rewrite stds_def.
+    destruct (rm_std_dirs s run (map (fun d => run ++ d) keys) (m :: ms)) as [[s1 ms1] stop] eqn:E1.
+    destruct (rm_std_dirs_Post _ _ _ _ _ _ HI (fun d Hd => Hd) E1) as [P1 Hsub].
+    destruct stop as [[e|]|]; intros H; [discriminate| |].
+    - inversion H; subst. intros p Hp.
+      destruct (rm_std_dirs_complete _ _ _ _ _ _ HI (fun d Hd => Hd) E1) as [_ B]; [intros e; discriminate|].
+      destruct (G p Hlex Hp) as [_ (rel & -> & _)]. apply B. reflexivity.
+    - destruct (rm_std_dirs_complete _ _ _ _ _ _ HI (fun d Hd => Hd) E1) as [A _]; [intros e; discriminate|].
+      assert (Hne : forall q, In q ms1 -> q <> []).
+      { intros q Hq. destruct (G q Hlex (Hsub q Hq)) as [_ (rel & -> & _)]. destruct run; [congruence|discriminate]. }
+      destruct (rm_each_complete ms1 s1 Hne) as (s2 & E2 & Sh & Hall). rewrite E2 in H. inversion H; subst.
+      intros p Hp. destruct (A p Hp) as [Hin|Hg]; [apply Hall; exact Hin|eapply gone_mono; eauto].
+  Qed.
+
+  (* and the loop over the standard dirs + the rest never fails once the standard dirs are done *)
+  Lemma rm_each_never_fails : forall ps s, (forall p, In p ps -> p <> []) -> snd (rm_each s ps) = None.
+  Proof. intros ps s H. destruct (rm_each_complete ps s H) as (s' & -> & _). reflexivity. Qed.
 
   (* everything that disappeared lies inside the allowed region *)
   Lemma Inv_contained : forall s, Inv s -> forall e, In e s0 -> ~ In e s -> inside0 (fst e).
@@ -1010,102 +1257,210 @@ Proof.
   intros ent. apply (Inv_contained s0 run stds s1 (proj1 P)).
 Qed.
 
+
 (* ================================================================== *)
-(* 9. completeness: what is handed to the removal loops is gone         *)
+(* 9. what glob_in_run_dir drops                                        *)
 (* ================================================================== *)
-Definition Shrinks (s s' : fs) : Prop :=
-  exists D, s' = restrict s D /\ ext_closed D /\ D [] = false.
+Section Filter.
+  Variables (s : fs) (run : path) (stds matches : list path).
 
-Lemma Shrinks_refl : forall s, Shrinks s s.
+  (* run/rel has a non-standard symlink among its strict ancestors *)
+  Definition blocked (rel : path) : Prop :=
+    exists a, In a (proper_prefixes rel) /\ is_link s (run ++ a) = true /\ mem_path (run ++ a) stds = false.
+
+  (* run/rel, or one of its strict ancestors, is in R *)
+  Definition covered (R : list path) (rel : path) : Prop :=
+    exists a, (In a (proper_prefixes rel) \/ a = rel) /\ In (run ++ a) R.
+
+  (* a strict ancestor is itself a match *)
+  Definition parent_matched (rel : path) : Prop :=
+    exists a, In a (proper_prefixes rel) /\ In (run ++ a) matches.
+
+  Definition excl_ok (excl results : list path) : Prop :=
+    forall x, In x excl -> exists a, x = run ++ a /\
+      ((is_link s x = true /\ mem_path x stds = false) \/ In x results).
+
+  Lemma app_inv_run : forall a b : path, run ++ a = run ++ b -> a = b.
+  Proof. intros a b. apply app_inv_head. Qed.
+
+  Lemma scan_drop : forall results p parent ancs excl excl' rel,
+    (forall a, In a ancs -> In a (proper_prefixes rel)) ->
+    excl_ok excl results ->
+    scan_ancestors s run stds matches results p parent ancs excl = (Drop, excl') ->
+    (blocked rel \/ covered results rel \/ parent_matched rel) /\ excl_ok excl' results.
+  Proof.
+    intros results p parent. induction ancs as [|a0 rest IH]; intros excl excl' rel Hsub Hex H.
+    - cbn in H. discriminate.
+    - cbn [scan_ancestors] in H. assert (Ha0 : In a0 (proper_prefixes rel)) by (apply Hsub; left; reflexivity).
+      destruct (mem_path (run ++ a0) excl) eqn:E0.
+      { inversion H; subst. split; [|exact Hex].
+        apply mem_In in E0; [|apply path_eqb_eq]. destruct (Hex _ E0) as (a & Ea & [[L M]|R]).
+        - left. exists a0. auto.
+        - right. left. exists a0. auto. }
+      destruct (is_link s (run ++ a0) && negb (mem_path (run ++ a0) stds)) eqn:E1.
+      { inversion H; subst. apply andb_prop in E1. destruct E1 as [L M]. apply negb_true_iff in M. split.
+        - left. exists a0. auto.
+        - intros x [<-|Hx]; [exists a0; auto|apply Hex; exact Hx]. }
+      destruct (is_nil_path stds && mem_path (run ++ a0) results) eqn:E2.
+      { inversion H; subst. apply andb_prop in E2. destruct E2 as [_ R].
+        apply mem_In in R; [|apply path_eqb_eq]. split.
+        - right. left. exists a0. auto.
+        - intros x [<-|Hx]; [exists a0; auto|apply Hex; exact Hx]. }
+      destruct (path_eqb (run ++ a0) parent && (mem_path (run ++ a0) matches && negb (mem_path p stds))) eqn:E3.
+      { inversion H; subst. apply andb_prop in E3. destruct E3 as [_ E3]. apply andb_prop in E3.
+        destruct E3 as [M _]. apply mem_In in M; [|apply path_eqb_eq]. split; [|exact Hex].
+        right. right. exists a0. auto. }
+      eapply IH; eauto. intros a Ha. apply Hsub. right. exact Ha.
+  Qed.
+
+  Lemma scan_excl_ok : forall results p parent ancs excl excl' v,
+    excl_ok excl results ->
+    scan_ancestors s run stds matches results p parent ancs excl = (v, excl') -> excl_ok excl' results.
+  Proof.
+    intros results p parent. induction ancs as [|a0 rest IH]; intros excl excl' v Hex H.
+    - cbn in H. inversion H; subst. exact Hex.
+    - cbn [scan_ancestors] in H.
+      destruct (mem_path (run ++ a0) excl) eqn:E0; [inversion H; subst; exact Hex|].
+      destruct (is_link s (run ++ a0) && negb (mem_path (run ++ a0) stds)) eqn:E1.
+      { inversion H; subst. apply andb_prop in E1. destruct E1 as [L M]. apply negb_true_iff in M.
+        intros x [<-|Hx]; [exists a0; auto|apply Hex; exact Hx]. }
+      destruct (is_nil_path stds && mem_path (run ++ a0) results) eqn:E2.
+      { inversion H; subst. apply andb_prop in E2. destruct E2 as [_ R].
+        apply mem_In in R; [|apply path_eqb_eq].
+        intros x [<-|Hx]; [exists a0; auto|apply Hex; exact Hx]. }
+      destruct (path_eqb (run ++ a0) parent && (mem_path (run ++ a0) matches && negb (mem_path p stds)));
+        [inversion H; subst; exact Hex|].
+      eapply IH; eauto.
+  Qed.
+
+  Lemma scan_keep_excl : forall results p parent ancs excl excl',
+    scan_ancestors s run stds matches results p parent ancs excl = (Keep, excl') -> excl' = excl.
+  Proof.
+    intros results p parent. induction ancs as [|a0 rest IH]; intros excl excl' H.
+    - cbn in H. inversion H. reflexivity.
+    - cbn [scan_ancestors] in H.
+      destruct (mem_path (run ++ a0) excl); [discriminate|].
+      destruct (is_link s (run ++ a0) && negb (mem_path (run ++ a0) stds)); [discriminate|].
+      destruct (is_nil_path stds && mem_path (run ++ a0) results); [discriminate|].
+      destruct (path_eqb (run ++ a0) parent && (mem_path (run ++ a0) matches && negb (mem_path p stds)));
+        [discriminate|]. eapply IH; eauto.
+  Qed.
+
+  Lemma glob_filter_mono : forall todo results excl x,
+    In x results -> In x (glob_filter s run stds matches todo results excl).
+  Proof.
+    induction todo as [|y rest IH]; intros results excl x H; cbn [glob_filter]; [exact H|].
+    destruct (scan_ancestors s run stds matches results y
+                (match split_last y with Some (par, _) => par | None => [] end)
+                (proper_prefixes (strip_prefix_len run y)) excl) as [[|] excl'].
+    - apply IH. apply in_or_app. left. exact H.
+    - apply IH. exact H.
+  Qed.
+
+  Lemma covered_mono : forall R R' rel, (forall x, In x R -> In x R') -> covered R rel -> covered R' rel.
+  Proof. intros R R' rel H (a & Ha & Hin). exists a. auto. Qed.
+
+  Lemma excl_ok_mono : forall excl R R', (forall x, In x R -> In x R') -> excl_ok excl R -> excl_ok excl R'.
+  Proof.
+    intros excl R R' H Hex x Hx. destruct (Hex x Hx) as (a & Ea & [L|Hr]); exists a; auto.
+  Qed.
+
+  Lemma glob_filter_classify : forall todo results excl,
+    excl_ok excl results ->
+    forall rel, In (run ++ rel) todo ->
+    let final := glob_filter s run stds matches todo results excl in
+    blocked rel \/ covered final rel \/ parent_matched rel.
+  Proof.
+    induction todo as [|y rest IH]; intros results excl Hex rel Hin; [destruct Hin|].
+    cbn [glob_filter].
+    destruct (scan_ancestors s run stds matches results y
+                (match split_last y with Some (par, _) => par | None => [] end)
+                (proper_prefixes (strip_prefix_len run y)) excl) as [[|] excl'] eqn:E.
+    - pose proof (scan_keep_excl _ _ _ _ _ _ E) as ->.
+      assert (Hex' : excl_ok excl (results ++ [y])).
+      { eapply excl_ok_mono; [|exact Hex]. intros x Hx. apply in_or_app. left. exact Hx. }
+      destruct Hin as [->|Hin]; [|apply IH; assumption].
+      right. left. exists rel. split; [right; reflexivity|].
+      apply glob_filter_mono. apply in_or_app. right. left. reflexivity.
+    - destruct Hin as [->|Hin].
+      + unfold strip_prefix_len in E. rewrite skipn_app_exact in E.
+        destruct (scan_drop _ _ _ _ _ _ rel (fun a Ha => Ha) Hex E) as [[B|[C|Pm]] _]; auto.
+        right. left. eapply covered_mono; [|exact C]. intros x Hx. apply glob_filter_mono. exact Hx.
+      + apply IH; [|exact Hin]. eapply scan_excl_ok; eauto.
+  Qed.
+End Filter.
+
+Lemma pp_spec : forall rel a, In a (proper_prefixes rel) <-> exists r, r <> [] /\ rel = a ++ r.
 Proof.
-  intros s. exists (fun _ => false). repeat split; try (intros p q H; discriminate).
-  unfold restrict. induction s as [|e l IH]; cbn; [reflexivity|]. f_equal. exact IH.
+  induction rel as [|c rel IH]; intros a; cbn.
+  - split; [intros []|]. intros (r & Hr & E). destruct a; destruct r; try discriminate. congruence.
+  - split.
+    + intros [<-|H]; [exists (c :: rel); split; [discriminate|reflexivity]|].
+      apply in_map_iff in H. destruct H as (a' & <- & H'). apply IH in H'. destruct H' as (r & Hr & ->).
+      exists r. auto.
+    + intros (r & Hr & E). destruct a as [|x a']; [left; reflexivity|]. right.
+      cbn in E. inversion E; subst. apply in_map. apply IH. eauto.
 Qed.
 
-Lemma Shrinks_rm_tree : forall s P, P <> [] -> Shrinks s (rm_tree s P).
+Lemma pp_length : forall rel a, In a (proper_prefixes rel) -> length a < length rel.
 Proof.
-  intros s P HP. exists (is_prefix P). repeat split; [apply ext_closed_prefix|].
-  destruct P; [congruence|reflexivity].
+  intros rel a H. apply pp_spec in H. destruct H as (r & Hr & ->). rewrite app_length.
+  destruct r; [congruence|cbn; lia].
 Qed.
 
-Lemma Shrinks_trans : forall a b c, Shrinks a b -> Shrinks b c -> Shrinks a c.
+Lemma pp_trans : forall rel a b, In a (proper_prefixes rel) -> In b (proper_prefixes a) -> In b (proper_prefixes rel).
 Proof.
-  intros a b c (D1 & -> & E1 & Z1) (D2 & -> & E2 & Z2).
-  exists (fun k => D1 k || D2 k). repeat split.
-  - apply restrict_restrict.
-  - apply ext_closed_or; assumption.
-  - rewrite Z1, Z2. reflexivity.
+  intros rel a b H1 H2. apply pp_spec in H1. apply pp_spec in H2. apply pp_spec.
+  destruct H1 as (r1 & N1 & ->). destruct H2 as (r2 & N2 & ->). exists (r2 ++ r1). split.
+  - destruct r2; [congruence|discriminate].
+  - rewrite app_assoc. reflexivity.
 Qed.
 
-(* once the directory entry of p has been removed, p never exists again,
-   whatever else is removed later *)
-Lemma lexists_gone : forall s D p P, ext_closed D -> D [] = false ->
-  phys s p = Some P -> D P = true -> lexists (restrict s D) p = false.
+(* every glob match is blocked by a non-standard symlink above it, or is kept, or lies
+   below a kept path (whose removal takes it along) *)
+Theorem filter_covers : forall s run stds raw,
+  forall rel, In (run ++ rel) raw ->
+  blocked s run stds rel \/ covered run (glob_filter s run stds raw raw [] []) rel.
 Proof.
-  intros s D p P He H0 HP HD. unfold lexists.
-  destruct (lstat (restrict s D) p) as [k|] eqn:E; [|reflexivity].
-  destruct (lstat_restrict s D He H0 _ _ E) as (_ & P' & _ & HP' & HD'). congruence.
+  intros s run stds raw rel. remember (length rel) as n eqn:En. revert rel En.
+  induction n as [n IH] using lt_wf_ind. intros rel En Hin.
+  destruct (glob_filter_classify s run stds raw raw [] [] (fun x (F : In x []) => match F with end) rel Hin)
+    as [B|[C|(a & Ha & Hm)]]; [left; exact B|right; exact C|].
+  assert (Hlt : length a < n) by (subst n; apply pp_length; exact Ha).
+  destruct (IH _ Hlt a eq_refl Hm) as [(b & Hb & L & M)|(b & Hb & Hin')].
+  - left. exists b. split; [eapply pp_trans; eauto|auto].
+  - right. exists b. split; [|exact Hin']. left. destruct Hb as [Hb| ->]; [eapply pp_trans; eauto|exact Ha].
 Qed.
 
-Lemma lexists_shrinks : forall s s' p, Shrinks s s' -> lexists s p = false -> lexists s' p = false.
+(* ================================================================== *)
+(* 10. top-level statements (from get_symlink_dirs)                     *)
+(* ================================================================== *)
+Theorem clean_using_glob_kept_gone : forall s0 run id pairs raw s',
+  run <> [] ->
+  get_symlink_dirs s0 run id = ROk pairs ->
+  (forall x, In x raw -> lexical run x) ->
+  clean_using_glob s0 run (map fst pairs) raw = (s', None) ->
+  forall p, In p (glob_in_run_dir s0 run (map (fun d => run ++ d) (map fst pairs)) raw) ->
+  lexists s' p = false.
 Proof.
-  intros s s' p (D & -> & He & H0) H. unfold lexists in *.
-  destruct (lstat (restrict s D) p) as [k|] eqn:E; [|reflexivity].
-  destruct (lstat_restrict s D He H0 _ _ E) as (E' & _). rewrite E' in H. discriminate.
+  intros s0 run id pairs raw s' Hrun Hg Hlex Hc p Hp. apply gone_now.
+  eapply (clean_using_glob_complete s0 run (map (fun d => run ++ d) (map fst pairs)) Hrun
+            (gsd_std_nonroot s0 run id pairs Hg) (gsd_run_nonroot s0 run id pairs Hg Hrun)
+            (map fst pairs) eq_refl (gsd_keys_anc s0 run id pairs Hg) s0 raw s');
+    [apply Inv_init|exact Hlex|exact Hc|exact Hp].
 Qed.
 
-Lemma stat_phys : forall s p k, stat s p = Some k -> exists P, phys s p = Some P.
-Proof.
-  intros s p k H. destruct p as [|x p'] using rev_ind; [exists []; reflexivity|].
-  unfold stat in H. destruct (realpath s (p' ++ [x])) as [q|] eqn:R; [|discriminate].
-  destruct (realpath_app_inv _ _ _ _ R) as (m & f' & R1 & _).
-  rewrite phys_snoc, R1. eauto.
-Qed.
-
-Lemma rm_dir_or_file_ok : forall s p del, rm_dir_or_file s p = ROk del ->
-  exists P, phys s p = Some P /\ del = [P].
-Proof.
-  intros s p del. unfold rm_dir_or_file.
-  assert (G : forall k, stat s p = Some k -> exists P, phys s p = Some P /\ opt_list (phys s p) = [P]).
-  { intros k Hk. destruct (stat_phys _ _ _ Hk) as [P HP]. exists P. rewrite HP. auto. }
-  unfold is_link, is_file, is_dir.
-  destruct (lstat s p) as [[| |t]|] eqn:L.
-  1,2,4: destruct (stat s p) as [[| |t']|] eqn:S; intros H; try discriminate; inversion H; subst; eapply G; eauto.
-  intros H. inversion H; subst. unfold lstat in L. destruct (phys s p) as [P|]; [|discriminate]. eauto.
-Qed.
-
-Lemma rm_each_complete : forall ps s s', (forall p, In p ps -> p <> []) ->
-  rm_each s ps = (s', None) -> Shrinks s s' /\ forall p, In p ps -> lexists s' p = false.
-Proof.
-  induction ps as [|p ps IH]; intros s s' Hne.
-  - intros H. inversion H; subst. split; [apply Shrinks_refl|intros p []].
-  - rewrite rm_each_cons. destruct (rm_dir_or_file s p) as [del|er] eqn:E; [|discriminate].
-    destruct (rm_dir_or_file_ok _ _ _ E) as (P & HP & ->). cbn [rm_trees fold_left]. intros H.
-    assert (HPne : P <> []) by (eapply phys_nonroot; [apply Hne; left; reflexivity|exact HP]).
-    destruct (IH _ _ (fun q Hq => Hne q (or_intror Hq)) H) as [Sh Hall].
-    pose proof (Shrinks_rm_tree s P HPne) as Sh1. split; [eapply Shrinks_trans; eauto|].
-    intros q [<-|Hq]; [|apply Hall; exact Hq].
-    eapply lexists_shrinks; [exact Sh|]. rewrite rm_tree_restrict.
-    eapply lexists_gone; [apply ext_closed_prefix| |exact HP|apply is_prefix_refl].
-    destruct P; [congruence|reflexivity].
-Qed.
-
-(* ---- the defect: with an error in the middle, later paths stay ---- *)
-(* names: 0 cylc-run, 1 log, 8 wf, 9 cat, 10 b, 11 cow, 12 zed, 13 cup, 14 scr *)
+(* regression: the input of the (now fixed) defect — matched dir `cat`, deeper match
+   `cat/b/cow`, further match `zed/cup`, a standard symlink dir `log` present.
+   names: 0 cylc-run, 1 log, 8 wf, 9 cat, 10 b, 11 cow, 12 zed, 13 cup, 14 scr *)
 Definition witness_fs : fs :=
   [ ([0], KD); ([0;8], KD); ([0;8;1], KL [14;0;8;1]); ([0;8;9], KD); ([0;8;9;10], KD);
     ([0;8;9;10;11], KF); ([0;8;12], KD); ([0;8;12;13], KF);
     ([14], KD); ([14;0], KD); ([14;0;8], KD); ([14;0;8;1], KD) ].
-(* sorted(glob('**/c*')) = cat, cat/b/cow, zed/cup *)
 Definition witness_globs : list (list path) := [[ [0;8;9]; [0;8;9;10;11]; [0;8;12;13] ]].
 
 Lemma witness_run :
   clean witness_fs [0] [8] (Some witness_globs) =
-  ([ ([0], KD); ([0;8], KD); ([0;8;1], KL [14;0;8;1]); ([0;8;12], KD); ([0;8;12;13], KF);
-     ([14], KD); ([14;0], KD); ([14;0;8], KD); ([14;0;8;1], KD) ], Some ENoEnt).
-Proof. vm_compute. reflexivity. Qed.
-
-Lemma witness_kept :
-  glob_in_run_dir witness_fs [0;8] [[0;8;1]] [ [0;8;9]; [0;8;9;10;11]; [0;8;12;13] ]
-  = [ [0;8;9]; [0;8;9;10;11]; [0;8;12;13] ].
+  ([ ([0], KD); ([0;8], KD); ([0;8;1], KL [14;0;8;1]); ([0;8;12], KD);
+     ([14], KD); ([14;0], KD); ([14;0;8], KD); ([14;0;8;1], KD) ], None).
 Proof. vm_compute. reflexivity. Qed.
